@@ -1692,6 +1692,8 @@ class Path:
             if isinstance(o, BAObj):
                 return self.length(o.val)
             if isinstance(o, LObj):
+                if o.flavor == 'set' and o.items:
+                    raise Unsupported('len of a set with symbolic members')
                 return len(o.items) if o.items is not None else self.length(o.sym)
             if isinstance(o, DObj):
                 return len(o.items)
